@@ -11,26 +11,29 @@ import sys
 
 import networkx as nx
 
-from ser import build_graph, exc_class, norm_graph, project, var
+from ser import build_graph, exc_class, norm_graph, num, project, var
 
 
-def lv_to_nx(rec, order=0):
+ALT_TAG = "is_hidden"   # second scenario: the caller's own tag key (every routine takes tag=)
+
+
+def lv_to_nx(rec, order=0, tag=None):
     from y0.graph import DEFAULT_TAG
 
     g = nx.DiGraph()
     nodes = sorted(rec["n"], reverse=bool(order))
     for i in nodes:
-        g.add_node(var(i), **{DEFAULT_TAG: i in rec["lat"]})
+        g.add_node(var(i), **{tag or DEFAULT_TAG: i in rec["lat"]})
     for u, v in (sorted(rec["d"], reverse=bool(order))):
         g.add_edge(var(u), var(v))
     return g
 
 
-def snap(g):
+def snap(g, tag=None):
     from y0.graph import DEFAULT_TAG
 
     return (sorted(str(n) for n in g.nodes()), sorted((str(u), str(v)) for u, v in g.edges()),
-            sorted(str(n) for n, d in g.nodes(data=True) if d.get(DEFAULT_TAG)))
+            sorted(str(n) for n, d in g.nodes(data=True) if d.get(tag or DEFAULT_TAG)))
 
 
 def cmp_proj(got, rec):
@@ -45,15 +48,17 @@ def run_simplify(rec, fails, stats):
 
     for order in (0, 1):
         stats["calls"] += 1
-        g = lv_to_nx(rec, order)
+        tag = ALT_TAG if order else None
+        kw = {"tag": tag} if tag else {}
+        g = lv_to_nx(rec, order, tag)
         try:
-            res = simplify_latent_dag(g)
+            res = simplify_latent_dag(g, **kw)
             out = res.graph
-            first = snap(out)
-            observed_after = {n for n, d in out.nodes(data=True) if not d[DEFAULT_TAG]}
-            admg = NxMixedGraph.from_latent_variable_dag(out)
-            again = simplify_latent_dag(out.copy()).graph
-            second = snap(again)
+            first = snap(out, tag)
+            observed_after = {n for n, d in out.nodes(data=True) if not d[tag or DEFAULT_TAG]}
+            admg = NxMixedGraph.from_latent_variable_dag(out, **kw)
+            again = simplify_latent_dag(out.copy(), **kw).graph
+            second = snap(again, tag)
         except Exception as exc:  # noqa: BLE001
             fails.append({"rec": rec, "order": order, "clause": "raised", "exc": exc_class(exc), "msg": str(exc)[:200]})
             continue
@@ -98,7 +103,7 @@ def run_evans(rec, fails, stats):
         graph = build_graph(g, order)
         before = project(graph)
         try:
-            res = evans_simplify(graph, latents={var(i) for i in lat} if lat else None)
+            res = evans_simplify(graph, latents={var(i) for i in lat} if lat else None, **({"tag": ALT_TAG} if order else {}))
             ok, have, want = cmp_proj(project(res), rec)
         except Exception as exc:  # noqa: BLE001
             fails.append({"rec": rec, "g": g, "latents": lat, "order": order, "clause": "raised", "exc": exc_class(exc),
@@ -116,18 +121,32 @@ def run_roundtrip(rec, fails, stats):
     g, lat = admg_of(rec)
     if lat:
         return
+    # the conversion's own options (latent names, first latent number, tag key) must not matter
+    options = ({}, {"prefix": "L_", "start": 1, "tag": "is_hidden"}, {"start": 3})
     for order in (0, 1, 2):
         stats["calls"] += 1
         graph = build_graph(g, order)
+        kw = options[order]
         try:
-            back = NxMixedGraph.from_latent_variable_dag(graph.to_latent_variable_dag())
+            lv = graph.to_latent_variable_dag(**kw)
+            back = NxMixedGraph.from_latent_variable_dag(lv, **({"tag": kw["tag"]} if "tag" in kw else {}))
             got = project(back)
         except Exception as exc:  # noqa: BLE001
-            fails.append({"g": g, "order": order, "clause": "raised", "exc": exc_class(exc), "msg": str(exc)[:200]})
+            fails.append({"g": g, "order": order, "options": kw, "clause": "raised", "exc": exc_class(exc), "msg": str(exc)[:200]})
             continue
         have = {k: got[k] for k in ("n", "d", "b")}
         if have != norm_graph(g) or back != graph or got["dn"] != got["n"] or got["un"] != got["n"]:
-            fails.append({"g": g, "order": order, "clause": "roundtrip", "got": have, "equal": back == graph})
+            fails.append({"g": g, "order": order, "options": kw, "clause": "roundtrip", "got": have, "equal": back == graph})
+            continue
+        # the LV-DAG itself is ToLV(G) of LVDag.tla: one parentless latent with exactly the two endpoints per bidirected edge
+        tag = kw.get("tag", "hidden")
+        lat_nodes = [n for n, d in lv.nodes(data=True) if d.get(tag)]
+        obs_nodes = [n for n, d in lv.nodes(data=True) if not d.get(tag)]
+        kids = sorted(sorted(num(c) for c in lv.successors(n)) for n in lat_nodes)
+        if (sorted(num(n) for n in obs_nodes) != sorted(g["n"]) or kids != sorted(sorted(e) for e in g["b"])
+                or any(lv.in_degree(n) for n in lat_nodes)
+                or sorted([num(u), num(v)] for u, v in lv.edges() if u in obs_nodes) != sorted(list(e) for e in g["d"])):
+            fails.append({"g": g, "order": order, "options": kw, "clause": "lv-dag-shape", "latent_children": kids})
 
 
 def main():
@@ -139,4 +158,5 @@ def main():
     json.dump({"fails": fails, "stats": stats}, open(dst, "w"))
 
 
-main()
+if __name__ == "__main__":
+    main()
